@@ -100,7 +100,7 @@ func c09RaceRun(tier string) {
 	}
 	out, err := cmd.CombinedOutput()
 	txt := string(out)
-	res["cmd"] = "go test -race -c ./internal/conc/race/ ; hammer.test  (Memory, Secrets, ConfigMaps drivers and the storage layer, 8 goroutines each" +
+	res["cmd"] = "go test -race -c ./internal/conc/race/ ; hammer.test  (every method of the Memory, Secrets, ConfigMaps drivers and every method of storage.Storage - Create with pruning, Update, Delete, Get, History, Last, Deployed, DeployedAll, List* - over each of the three, 8 goroutines each" +
 		map[bool]string{true: "", false: "; short run"}[tier == "thorough"] + ")"
 	res["ok"] = err == nil
 	raced := strings.Contains(txt, "DATA RACE") || strings.Contains(txt, "concurrent map")
